@@ -16,7 +16,8 @@ RULE = ("(a) W2 documents (tags, steps, rows and examples competing on the same 
         "to a node of the right kind; the get_next_id wrapper logs who drew each id; (b) golden corpus ids; (c) streams of 2..6 "
         "sources (accepted and rejected mixed) through one GherkinEvents: all ids of the stream distinct, each document's ids equal "
         "its solo ids shifted by the number of ids drawn before it (draws counted by the wrapper, including those of rejected "
-        "documents).  Distinct = hash of the source / stream.")
+        "documents).  Distinct = hash of the source / stream."
+        " Also: threshold and huge documents (ids crossing 10/100/1000), caller-supplied generators (ids starting at 1000, prefixed, descending, stepping) whose outputs must appear in the canonical order, and scripts/generate_events.py on several files (one stream: distinct ids, equal to the in-process stream).")
 ASSUMPTIONS = ["R5 reproduces the ids of all 41 golden .ast.ndjson/.pickles.ndjson files (setup_cmd and family (b))"]
 DECIDING = ["documents_parsed", "ids_checked", "references_resolved", "streams_checked", "IdGenerator.draws_logged"]
 
